@@ -206,3 +206,14 @@ mod test {
         assert_eq!(bf.bitset.len(), 16);
     }
 }
+
+#[cfg(feature = "verif-hooks")]
+impl Bloom {
+    pub(crate) fn verif_bits(&self) -> &[u64] {
+        &self.bitset
+    }
+
+    pub(crate) fn verif_set_locs(&self) -> u64 {
+        self.set_locs
+    }
+}
